@@ -449,6 +449,8 @@ Definition corr_ok (c : case) : bool :=
   | Err e, None => match k_out c with OExc cls O => str_eqb (err_class e) cls | _ => false end
   | Ok cfg, Some t =>
       init_eqb cfg t &&
+      (* hypothesis of the unconditional numbering / valence theorems (Sample/SampleSorted.v) *)
+      frags_attrs_okb (k_frags c) &&
       let picks := all_picks c in
       let run := sample_growth float fc0 fadd fltb fisz (list nat) pick_list cfg (k_target c) (Datatypes.S (length picks)) picks (k_start c) in
       match run, k_out c with
